@@ -706,7 +706,8 @@ class Real:
         self.inj = {
             "select": self.world.selects, "time": self.world.clock, "cancelling_before": t.cancelling(),
             "started": R is not None,
-            "shielded": bool(R and R.sdepth), "in_ckpt": R.in_ckpt if R else None,
+            # inside ignore_cancellation(...) or inside cancel_shielded_coro_yield()
+            "shielded": bool(R and (R.sdepth or (R.in_ckpt is not None and not R.in_ckpt[1]))), "in_ckpt": R.in_ckpt if R else None,
             "scopes_cancel_called": [r.path for r in (R.scopes if R else []) if r.scope.cancel_called()],
         }
         self.injected += 1
@@ -921,7 +922,7 @@ class Real:
         of the group is at the moment the group cancels it."""
         for T in self.tasks:
             if T.atg is atg and T.abort_info is None and not T.task.done():
-                T.abort_info = {"started": True, "shielded": bool(T.sdepth), "cancelling_before": T.task.cancelling(),
+                T.abort_info = {"started": True, "shielded": bool(T.sdepth or (T.in_ckpt is not None and not T.in_ckpt[1])), "cancelling_before": T.task.cancelling(),
                                 "scopes_cancel_called": [r.path for r in T.scopes if r.scope.cancel_called()]}
 
     def run(self) -> "Real":
